@@ -50,6 +50,8 @@ var c20Sources = []string{
 	"package pkg\n\nimport (\n\t\"bytes\"\n\t\"io\"\n)\n\nfunc D(w io.Writer) { w.Write(bytes.NewBufferString(\"d\").Bytes()) }\n",
 	// raw string literals with multi-byte text over several lines, code behind the closing back quote
 	"package pkg\n\nimport \"strings\"\n\n// J – größer als ASCII.\nvar J = strings.TrimSpace(`\n日本語日本語日本語日本語日本語日本語\nÄÖÜ\n`) // hinter dem Rohtext\n\nconst K = `ääääääääääääääää\na\nb`\n\nfunc größe() string { return J + K /* © */ }\n",
+	// block comments that close the line of a field / spec with fewer columns than its neighbours
+	"package pkg\n\nimport \"fmt\"\n\ntype T struct {\n\tfmt.Stringer     /* embedded */\n\tName         int /* named */\n\tOther        fmt.Formatter\n}\n\nconst (\n\ta = iota /* first */\n\tb        /* repeats */\n\tc        // line\n)\n",
 	// a raw string literal over several lines (its line breaks are part of the restored line table)
 	"package pkg\n\nconst H = `first\nsecond\n\tthird\n`\n\nfunc I() string { return H }\n",
 	// an import declaration without specs (legal, and gofmt leaves it alone)
@@ -275,7 +277,10 @@ func checkC20(c *Ctx) {
 		}
 		gen(nil)
 		for _, pick := range picks {
-			if c.Quick() && nf == 3 && r.Intn(4) != 0 {
+			if c.Quick() && nf == 3 && r.Intn(7) != 0 {
+				continue
+			}
+			if !c.Quick() && nf == 3 && r.Intn(5) >= 3 { // 12 sources: 1728 ordered triples, three fifths of them
 				continue
 			}
 			for dirs := 1; dirs <= 2 && dirs <= nf; dirs++ {
